@@ -22,7 +22,10 @@ import (
 	"verif/harness/c10"
 	"verif/harness/c08dns"
 	"verif/harness/c08ndp"
+	"verif/harness/c03dhcp"
+	"verif/harness/c11"
 	"verif/harness/c13"
+	"verif/harness/c18"
 	"verif/harness/c14"
 	"verif/harness/c15"
 	"verif/harness/c19"
@@ -35,7 +38,12 @@ var runners = map[string]core.Runner{
 	"C01": c01.Runner01,
 	"C02": c01.Runner02,
 	"C16": c01.Runner16,
-	"C03": c03.Runner,
+	"C03": {Gen: func(c *core.Ctx) { c03.Runner.Gen(c); r := c.Res.Rule; c03dhcp.Runner.Gen(c); c.Res.Rule = r + " || DHCPv4 options: " + c.Res.Rule }, Eval: func(c *core.Ctx, l string) *core.Case {
+		if cs := c03.Runner.Eval(c, l); cs != nil {
+			return cs
+		}
+		return c03dhcp.Runner.Eval(c, l)
+	}},
 	"C04": c04.Runner,
 	"C05": c04.Runner,
 	"C06": c04.Runner,
@@ -43,7 +51,11 @@ var runners = map[string]core.Runner{
 	"C08": c08.Runner,
 	"C09": c09.Runner,
 	"C10": c10.Runner,
+	"C11": c11.Runner,
+	"C12": c11.Runner,
 	"C13": c13.Runner,
+	"C18": c18.Runner,
+	"C03Dhcp": c03dhcp.Runner,
 	"C14": c14.Runner,
 	"C15": c15.Runner,
 	"C19": c19.Runner,
@@ -54,7 +66,7 @@ var runners = map[string]core.Runner{
 }
 
 func main() {
-	c08.Sub = []core.Runner{c08dns.Runner, c08ndp.Runner}
+	c08.Sub = []core.Runner{c08dns.Runner, c08ndp.Runner, c03dhcp.Runner}
 	prop := flag.String("prop", "", "property id")
 	seed := flag.Int64("seed", 1, "PRNG seed")
 	tier := flag.String("tier", "quick", "quick|thorough")
